@@ -1,5 +1,5 @@
 (* C11Rpc.v -- C11, ONC-RPC half, made concrete on serialised calls: on a flow
-   whose first segment is identified as RPC, the first call of the stream
+   whose stream is identified as RPC (in whichever segment), the first call of the stream
    (record mark, call, anything after it) is answered exactly by the segment
    that contains stream byte number 44 + |credentials| (the last byte of the
    verifier-length word when the credentials are 4-byte aligned), whatever the
@@ -122,23 +122,24 @@ Proof.
     + rewrite app_length. lia.
 Qed.
 
-(* C11 for the first RPC call of a flow, at the level of proto::repl *)
+(* C11 for the first RPC call of a flow, at the level of proto::repl: any list of segments,
+   the cuts may fall anywhere (also inside the protocol signature) *)
 Theorem rpc_first_call_segmentation (E : env) (clk : clock) (ci : cinfo) (ip : ipaddr) (port : N)
         (c : rpc_call) (m0 m1 m2 m3 : N) (tail : bytes) (pre : list bytes) (s : bytes) (post : list bytes) :
+  proto_tbl_ok E = true ->
   call_wf c = true -> (length (ip_octets ip) <= 16)%nat ->
   ci_ip_dst ci = Some ip -> ci_port_dst ci = Some port ->
-  tcp_first_id E (hd s pre) = Some PROTO_RPC_TCP ->
   concat (pre ++ s :: post) = [m0; m1; m2; m3] ++ ser_call c ++ tail ->
+  bytes_ok ([m0; m1; m2; m3] ++ ser_call c ++ tail) = true ->
+  tcp_first_id E ([m0; m1; m2; m3] ++ ser_call c ++ tail) = Some PROTO_RPC_TCP ->
   (length (concat pre) < complete_at_tcp c)%nat ->
   (complete_at_tcp c <= length (concat pre) + length s)%nat ->
   tcp_stream E clk ci tcb_new (pre ++ s :: post) =
     Ok (repeat None (length pre) ++ Some (first_reply ip port c) :: rpc_outs ip port (rpc_new R_FRAG) post).
 Proof.
-  intros Hwf Hipl Hip Hport Hid Hcat Hlo Hhi.
-  assert (Hsegs : exists s0 rest, pre ++ s :: post = s0 :: rest /\ s0 = hd s pre).
-  { destruct pre as [|x pre]; cbn [app hd]; eauto. }
-  destruct Hsegs as (s0 & rest & Heq & Hs0). rewrite Heq. subst s0.
-  rewrite (rpc_stream_segmentation E clk ci ip port _ rest Hip Hport Hid). rewrite <- Heq. f_equal.
+  intros Ht Hwf Hipl Hip Hport Hcat Hb Hid Hlo Hhi.
+  rewrite <- Hcat in Hb, Hid.
+  rewrite (rpc_stream_any E clk ci ip port _ Ht Hip Hport Hb Hid). f_equal.
   apply (rpc_stream_ref_first_call ip port c m0 m1 m2 m3 tail s post Hwf Hipl pre []); cbn [app length]; assumption.
 Qed.
 
